@@ -258,9 +258,33 @@ def r4(run):
         run.ob("%s|copy-loop|writes-what-was-read" % fn, okw, rd.sp, "every iteration writes exactly buffer[..bytes_read] (%d write site(s))" % len(ws), reason="content-truncated")
 
 
+def r5(run):
+    """A write into a CAS writer that fails is never followed by the commit of that writer: a frame must not reference content
+    that was only partly written."""
+    n = 0
+    for b in run.facts.all_bodies():
+        commits = [c for c in b.calls() if c.bb in b.live_blocks() and c.fn in COMMITS and c.fn.endswith("::commit")]
+        if not commits:
+            continue
+        writes = [c for c in b.calls() if c.bb in b.live_blocks() and c.fn.endswith(("::write_all", "::write")) and ("AsyncWriteExt" in c.fn or "io::Write" in c.fn)
+                  and any("cacache::put::" in b.types.s(b.local_ty(l)) for l in [q.root_local(b, c.args[0])] if l is not None)]
+        for w in writes:
+            n += 1
+            run.touch(b)
+            err = q.call_result_edges(b, w, ok=False)
+            ok = q.call_result_edges(b, w, ok=True)
+            reach = b.reachable_blocks([t for (_, t, _) in err]) if err else set()
+            bad = [c.sp for c in commits if c.bb in reach]
+            run.ob("%s|cas-write|error-stops-commit" % run.facts.enclosing_fn(b), bool(err) and bool(ok) and not bad, w.sp,
+                   "the result of writing into the CAS writer is examined and its error edge never reaches commit (%d error edge(s)%s)" % (
+                       len(err), ", commit reachable at %s" % bad if bad else ""), reason="partial-content-committed")
+    run.floor("writes into a CAS writer that is committed in the same body", n, 4)
+
+
 RULES = [
     ("R-C10-1", "a frame's hash originates only from a finished CAS commit (directly or through audited helpers) or None", rule_hash_provenance),
     ("R-C10-2", "HTTP append: a hash is produced only when bytes were written; POST /cas rejects empty bodies", r2),
     ("R-C10-3", "every cacache call uses the one CAS directory <store>/cacache", r3),
     ("R-C10-4", "stream-to-CAS copy loops end only at EOF (read == 0) and write exactly the bytes read", r4),
+    ("R-C10-5", "a failed write into a CAS writer is never followed by its commit (no hash for partly written content)", r5),
 ]
